@@ -30,6 +30,9 @@ func genGrowCross(thorough bool) Gen {
 		for _, via := range []string{"pcall", "hcall", "index", "iter", "direct"} {
 			for _, nloc := range []int{0, 3, 7} {
 				for _, d := range depths {
+					if via != "direct" && d > 28 {
+						continue // two frames per level: stay below the smallest CallStackSize of the configurations (64)
+					}
 					via, nloc, d := via, nloc, d
 					yield(&Prog{Family: "F-growcross", Shape: fmt.Sprintf("%s/locals=%d/depth=%d", via, nloc, d), Mk: func() *Block {
 						var locs []string
